@@ -256,6 +256,62 @@ func checkMulti(c *multiCase) string {
 	return ""
 }
 
+// leftoverCase: a call that ends before its input is used up (stop, or an
+// error), with unread input after the point where it ends; then another call.
+type leftoverCase struct {
+	First string `json:"first"` // ends with stop or a failing token
+	Junk  string `json:"junk"`  // unread input after it
+	Next  string `json:"next"`
+}
+
+func checkLeftover(c *leftoverCase) string {
+	run := func(first string) (string, string, string) {
+		intp := postscript.NewInterpreter()
+		intp.MaxOps = targets.InterpMaxOps
+		e1 := intp.ExecuteString(first)
+		e2 := intp.ExecuteString(c.Next)
+		return pscanon.ErrorName(e1), pscanon.ErrorName(e2), pscanon.State(intp)
+	}
+	a1, a2, sa := run(c.First)
+	b1, b2, sb := run(c.First + c.Junk)
+	if a1 != b1 {
+		return fmt.Sprintf("the first call ends with %q, with unread input %q behind it with %q\nfirst: %q", a1, c.Junk, b1, c.First)
+	}
+	if a2 != b2 || sa != sb {
+		return fmt.Sprintf("unread input of an earlier call (%q after %q) leaks into the next call: the next call (%q) ends with %q instead of %q, states equal: %v", c.Junk, c.First, c.Next, b2, a2, sa == sb)
+	}
+	return ""
+}
+
+func TestP4Leftover(t *testing.T) {
+	rec := ev.New("C12", "leftover")
+	defer rec.Finish(t)
+	rec.Rule("histories of two Execute calls on one interpreter where the first call ends before its input is used up - at a stop, an undefined name, a typecheck or a syntax error - and 1-12 bytes of unread input follow that point (starting with every delimiter and token start: ( / { } [ ] < > % white space, digits, letters); the second call runs a generated program. Oracle: error names of both calls and the final state equal those of the same history without the unread bytes (nothing of a finished call may leak into the next one). Non-trivial: always; distinct by the three texts.")
+	cfg := psgen.Config{TypeLiteral: true}
+	ev.SetupRapid(6000, 200000)
+	rapid.Check(t, func(t *rapid.T) {
+		toks, _, _ := psgen.Adaptive(t, cfg, 6)
+		// none of these can be given another meaning by the generated program
+		ender := rapid.SampledFrom([]string{"stop", "nosuchname", "1 (x) sub", ")", "1 2 stop", "exit"}).Draw(t, "ender")
+		junk := rapid.SampledFrom([]string{"(", "/", "{", "}", "[", "]", "<", ">", "<<", ">>", "%", " ", "\n", "4", "x", "(abc)", "/x", "{ 1", "% c\n5", "<41>", "<~", "\x00", "((", "//x"}).Draw(t, "junkstart") +
+			rapid.StringMatching(`[ -~]{0,8}`).Draw(t, "junkrest")
+		if strings.IndexByte("()<>[]{}/% \n\x00", junk[0]) < 0 {
+			junk = " " + junk // a regular character would extend the last token
+		}
+		next, _, _ := psgen.Adaptive(t, cfg, 8)
+		c := &leftoverCase{First: psgen.Spell(toks) + " " + ender, Junk: junk, Next: psgen.Spell(next)}
+		rec.Eval(1)
+		rec.Class("ender:" + ender)
+		rec.NonTrivial(c.First + "\x00" + c.Junk + "\x00" + c.Next)
+		if rec.WantSample() {
+			rec.Sample(c)
+		}
+		if msg := ev.Safe(func() string { return checkLeftover(c) }); msg != "" {
+			rec.Fail(t, msg, map[string]any{"leftover": c})
+		}
+	})
+}
+
 func TestP3MultiCall(t *testing.T) {
 	rec := ev.New("C12", "multicall")
 	defer rec.Finish(t)
@@ -329,12 +385,15 @@ func TestReplay(t *testing.T) {
 		t.Skip("no VERIF_REPLAY")
 	}
 	var m struct {
-		Multi *multiCase `json:"multi"`
+		Multi    *multiCase    `json:"multi"`
+		Leftover *leftoverCase `json:"leftover"`
 	}
 	json.Unmarshal(rc.Case, &m)
 	var msg string
 	if m.Multi != nil {
 		msg = ev.Safe(func() string { return checkMulti(m.Multi) })
+	} else if m.Leftover != nil {
+		msg = ev.Safe(func() string { return checkLeftover(m.Leftover) })
 	} else {
 		var c schedCase
 		if err := json.Unmarshal(rc.Case, &c); err != nil {
